@@ -22,3 +22,32 @@ func VerifExchangeServiceInfoRound(ctx context.Context, transport Transport, mtu
 ) (int, bool, error) {
 	return exchangeServiceInfoRound(ctx, transport, mtu, r, w, sess)
 }
+
+// Exported aliases of the unexported wire message structures.
+type (
+	VerifHelloDevice            = helloDeviceMsg
+	VerifOVHProof               = ovhProof
+	VerifOVEntry                = ovEntry
+	VerifDeviceSetup            = deviceSetup
+	VerifDeviceServiceInfoReady = deviceServiceInfoReady
+	VerifOwnerServiceInfoReady  = ownerServiceInfoReady
+	VerifDeviceServiceInfo      = deviceServiceInfo
+	VerifOwnerServiceInfo       = ownerServiceInfo
+	VerifDone                   = doneMsg
+	VerifDone2                  = done2Msg
+	VerifSetCredentials         = setCredentialsMsg
+	VerifTO0Ack                 = to0Ack
+	VerifTO0d                   = to0d
+	VerifOwnerSign              = ownerSign
+	VerifTO0AcceptOwner         = to0AcceptOwner
+	VerifHelloRV                = helloRV
+	VerifRVAck                  = rvAck
+	VerifEAToken                = eatoken
+	VerifSigInfo                = sigInfo
+)
+
+// VerifEATLabels returns the EAT claim labels used by TO1/TO2.
+func VerifEATLabels() (nonce, ueid, fdoClaim, unprotectedNonce, to2Nonce, to2OwnerPubKey int64) {
+	return eatNonceClaim.Int64, eatUeidClaim.Int64, eatFdoClaim.Int64, eatUnprotectedNonceClaim.Int64,
+		to2NonceClaim.Int64, to2OwnerPubKeyClaim.Int64
+}
